@@ -42,7 +42,7 @@ def gen_case(rng, big):
 
 def klass(case, name, info, clause):
     c = c01.cls_of(name)
-    if (c in ('fft', 'auto') and info.get('inconsistent')) or (info.get('grid_inconsistent') and clause != 'adjoint'):
+    if (c in ('fft', 'auto') and info.get('inconsistent')) or (info.get('grid_inconsistent') and not clause.startswith('adjoint')):
         return 'fft-grid-inconsistent'
     if c == 'zoom' and (case['tensor'] or len(case['N']) >= 3):
         return 'zoom-tensor-or-3d'
@@ -59,7 +59,7 @@ def oracle_case(case, thorough=False):
     with c01.Conf(case.get('method')):
         in_grid = c01.make_in_grid(case)
         try:
-            out_grid, transforms = c01.build_transforms(case, in_grid, thorough)
+            out_grid, transforms = c01.build_transforms(case, in_grid, thorough or case.get('all_switches', False))
         except Exception as e:  # noqa
             return [('construct-raises', 'constructing the transform raised %s: %s' % (type(e).__name__, e))], obs
         x = c01.make_field(case, in_grid)
@@ -92,44 +92,59 @@ def oracle_case(case, thorough=False):
             if name.startswith('auto') and not c01.grids_close(og, out_grid):
                 continue        # reported by C01 (selection-output-grid)
             obs['impls'].append(name + ':' + type(ft).__name__)
-            y = c01.make_field(case, og, which='g')
-            yv = np.asarray(y).reshape(T, -1)
             w_out = og.weights / two_pi_n
-            try:
-                Fx = np.asarray(ft.forward(x)).reshape(T, -1)
-                By = np.asarray(ft.backward(y)).reshape(T, -1)
-            except Exception as e:  # noqa
-                bad.append((klass(case, name, info, 'raises'), '%s raised %s: %s' % (name, type(e).__name__, e)))
-                continue
-            if Fx.shape != yv.shape or By.shape != xv.shape:
-                bad.append((klass(case, name, info, 'adjoint'), '%s returned arrays of the wrong size' % name))
-                continue
-            # adjointness
-            lhs = inner(yv, Fx, w_out)
-            rhs = inner(By, xv, w_in)
-            scale = max(1.0, float(np.sum(np.abs(yv) * np.abs(Fx) * w_out)), float(np.sum(np.abs(By) * np.abs(xv) * w_in)))
-            obs['clauses'].append('adjoint')
-            if not abs(lhs - rhs) <= tol * scale:
-                bad.append((klass(case, name, info, 'adjoint'),
-                            '%s: <y,Fx>_out = %r but <By,x>_in = %r (scale %.3g)' % (name, lhs, rhs, scale)))
-            if is_fft_grid:
-                e_out = energy(Fx, w_out)
-                if full:
-                    obs['clauses'] += ['roundtrip', 'parseval']
-                    try:
-                        back = np.asarray(ft.backward(ft.forward(x))).reshape(T, -1)
-                    except Exception as e:  # noqa
-                        bad.append((klass(case, name, info, 'raises'), '%s raised %s: %s' % (name, type(e).__name__, e)))
-                        continue
-                    err = float(np.abs(back.astype(CLD) - xv).max())
-                    if not err <= tol * max(1.0, float(np.abs(xv).max())):
-                        bad.append((klass(case, name, info, 'roundtrip'), '%s: backward(forward(f)) differs from f by %.3g on a full FFT grid pair' % (name, err)))
-                    if not abs(e_out - e_in) <= tol * max(1.0, e_in):
-                        bad.append((klass(case, name, info, 'parseval'), '%s: output energy %r, input energy %r on a full FFT grid pair' % (name, e_out, e_in)))
-                else:
-                    obs['clauses'].append('cropped-energy')
-                    if not e_out <= e_in + tol * max(1.0, e_in):
-                        bad.append((klass(case, name, info, 'cropped-energy'), '%s: output energy %r exceeds input energy %r on a cropped FFT grid' % (name, e_out, e_in)))
+            rounds = [(case, x, None)] + [(dict(case, tensor=st['tensor'], dtype=st['dtype'], field=st['field'], gseed=st['gseed']), None, st)
+                                           for st in case.get('seq', [])]
+            for ri, (rc, xr, st) in enumerate(rounds):
+                sfx = '' if ri == 0 else '-reused'
+                note = '' if ri == 0 else ' (round %d on one object, %s, tensor %s)' % (ri + 1, rc['dtype'], rc['tensor'])
+                tol_r = c01.tol_for(rc['dtype'])
+                if xr is None:
+                    xr = c01.make_field(rc, in_grid)
+                Tr = int(np.prod(rc['tensor'])) if rc['tensor'] else 1
+                xv = np.asarray(xr).reshape(Tr, -1)
+                e_in = energy(xv, w_in)
+                y = c01.make_field(rc, og, which='g')
+                yv = np.asarray(y).reshape(Tr, -1)
+                try:
+                    if st is not None and st['dir'] == 'b':
+                        By = np.asarray(ft.backward(y)).reshape(Tr, -1)
+                        Fx = np.asarray(ft.forward(xr)).reshape(Tr, -1)
+                    else:
+                        Fx = np.asarray(ft.forward(xr)).reshape(Tr, -1)
+                        By = np.asarray(ft.backward(y)).reshape(Tr, -1)
+                except Exception as e:  # noqa
+                    bad.append((klass(case, name, info, 'raises' + sfx), '%s raised %s: %s%s' % (name, type(e).__name__, e, note)))
+                    break
+                if Fx.shape != yv.shape or By.shape != xv.shape:
+                    bad.append((klass(case, name, info, 'adjoint' + sfx), '%s returned arrays of the wrong size%s' % (name, note)))
+                    break
+                # adjointness (scale: the absolute sums of the two inner products; no absolute floor)
+                lhs = inner(yv, Fx, w_out)
+                rhs = inner(By, xv, w_in)
+                scale = max(float(np.sum(np.abs(yv) * np.abs(Fx) * w_out)), float(np.sum(np.abs(By) * np.abs(xv) * w_in)), 1e-300)
+                obs['clauses'].append('adjoint' + sfx)
+                if not abs(lhs - rhs) <= tol_r * scale:
+                    bad.append((klass(case, name, info, 'adjoint' + sfx),
+                                '%s: <y,Fx>_out = %r but <By,x>_in = %r (scale %.3g)%s' % (name, lhs, rhs, scale, note)))
+                if is_fft_grid:
+                    e_out = energy(Fx, w_out)
+                    if full:
+                        obs['clauses'] += ['roundtrip' + sfx, 'parseval' + sfx]
+                        try:
+                            back = np.asarray(ft.backward(ft.forward(xr))).reshape(Tr, -1)
+                        except Exception as e:  # noqa
+                            bad.append((klass(case, name, info, 'raises' + sfx), '%s raised %s: %s%s' % (name, type(e).__name__, e, note)))
+                            break
+                        err = float(np.abs(back.astype(CLD) - xv).max())
+                        if not err <= tol_r * max(float(np.abs(xv).max()), 1e-300):
+                            bad.append((klass(case, name, info, 'roundtrip' + sfx), '%s: backward(forward(f)) differs from f by %.3g on a full FFT grid pair%s' % (name, err, note)))
+                        if not abs(e_out - e_in) <= tol_r * max(e_in, 1e-300):
+                            bad.append((klass(case, name, info, 'parseval' + sfx), '%s: output energy %r, input energy %r on a full FFT grid pair%s' % (name, e_out, e_in, note)))
+                    else:
+                        obs['clauses'].append('cropped-energy' + sfx)
+                        if not e_out <= e_in + tol_r * max(e_in, 1e-300):
+                            bad.append((klass(case, name, info, 'cropped-energy' + sfx), '%s: output energy %r exceeds input energy %r on a cropped FFT grid%s' % (name, e_out, e_in, note)))
         # Fourier filter adjointness
         if case.get('in_kind', 'regular') == 'regular' and case['family'] == 'fft' and int(np.prod(case['N'])) <= 20000:
             bad += filter_oracle(case, in_grid, x, obs)
@@ -168,7 +183,7 @@ def filter_oracle(case, in_grid, x, obs):
             continue
         lhs = inner(np.asarray(y), Ax, 1.0)
         rhs = inner(Ay, np.asarray(x), 1.0)
-        scale = max(1.0, float(np.sum(np.abs(np.asarray(y)) * np.abs(Ax))), float(np.sum(np.abs(Ay) * np.abs(np.asarray(x)))))
+        scale = max(float(np.sum(np.abs(np.asarray(y)) * np.abs(Ax))), float(np.sum(np.abs(Ay) * np.abs(np.asarray(x)))), 1e-300)
         obs['clauses'].append('filter-adjoint-' + kind)
         if not abs(lhs - rhs) <= tol * scale:
             bad.append(('filter-adjoint', 'FourierFilter (%s transfer function): <y,Ax> = %r but <A†y,x> = %r' % (kind, lhs, rhs)))
@@ -231,9 +246,9 @@ def compare_adj(resps, Fkj, Bjk):
             return 'model: the modelled pipeline is not adjoint on this impulse pair: ' + r
         F = F * c01.eval_mono(p[2])
         B = B * c01.eval_mono(p[3])
-    if not abs(complex(F) - Fkj) <= 1e-9 * max(1.0, abs(complex(F))):
+    if not abs(complex(F) - Fkj) <= 1e-9 * max(abs(complex(F)), 1e-300):
         return 'forward impulse response: implementation %r, model %r' % (Fkj, complex(F))
-    if not abs(complex(B) - Bjk) <= 1e-9 * max(1.0, abs(complex(B))):
+    if not abs(complex(B) - Bjk) <= 1e-9 * max(abs(complex(B)), 1e-300):
         return 'backward impulse response: implementation %r, model %r' % (Bjk, complex(B))
     return None
 
@@ -259,7 +274,7 @@ def run(ctx):
     ctx.assumptions += ['numpy/scipy fftn/ifftn compute the DFT / inverse DFT with 1/M normalisation', 'BLAS gemm computes matrix products',
                         'the weights reported by the grids are the weights the property refers to']
     thorough = ctx.tier == 'thorough'
-    n = ctx.scale(400, 6000)
+    n = ctx.scale(320, 5000)
     cases = [dict(c) for c in c01.DIRECTED]
     for c in c01.DIRECTED[:4]:
         c2 = dict(c)
@@ -267,6 +282,9 @@ def run(ctx):
         cases.append(c2)
     for i in range(n):
         cases.append(gen_case(ctx.rng, big=thorough and i % 4 == 0))
+    for i in range(ctx.scale(60, 500)):
+        cases.append(c01.gen_seq_case(ctx.rng, big=thorough))
+    cases += [dict(c) for c in c01.DIRECTED_SEQ]
     lines = []
     checks = []
     for ci, case in enumerate(cases):
